@@ -102,6 +102,22 @@ def fixed_cases(tier):
         },
         "event_seed": 3, "coupling_seed": 4,
     })
+    # five-body topologies (all five, a spin-1/2 particle at every position): formulation must succeed with both
+    # alignments that exist for five bodies; the intensity is not evaluated there (cost)
+    for idx in range(5):
+        for pos in range(5):
+            cases.append({
+                "family": "model", "formulate_only": True, "alignment": "axisangle", "spin1_budget": 1,
+                "reaction": {
+                    "formalism": "helicity", "n": 5, "mu": 0.3,
+                    "final": [fin(1 if i == pos else 0, [0.938, 0.135, 0.494, 0.135, 0.548][i]) for i in range(5)], "ident": [],
+                    "initial": {"k": 0, "P": 1, "eps": 0.3, "width": 0.0},
+                    "topos": [{"idx": idx, "perm": [0, 1, 2, 3, 4], "res": [{"k": 0, "P": 1, "eps": 0.1, "width": 0.1}] * 3,
+                               "pc": [False] * 4}],
+                    "hel_init": 0, "hel_final": [0] * 5, "max_transitions": 96,
+                },
+                "event_seed": 1, "coupling_seed": 2,
+            })
     return cases
 
 
@@ -158,6 +174,9 @@ def run_case(desc) -> Result:  # noqa: C901, PLR0912, PLR0914
         models[al] = (prepared, under_test(f"formulate[{al[:3]}]", prepared.builder.formulate))
     built = prepared0.built
     info = summarize(built)
+    if desc.get("formulate_only"):
+        # five-body chains: formulating must succeed (asserted above); evaluating the aligned intensity costs minutes
+        return ok(False, [*labels, "formulation_only:five_body"], n_transitions=info["n_transitions"])
     t0 = built.reaction.transitions[0]
     finals = sorted(t0.final_states)
     final_spins = [t0.states[i].particle.spin for i in finals]
